@@ -18,7 +18,7 @@ import (
 
 func init() {
 	seqChecks["c20"] = &seqCheck{run: runC20, replay: replayC20,
-		rule: "every sequence of <=4 (5 thorough) events over {change a=1, change a=2 b=x, change delete a, add v@0, add v@1, add v@5, remove 0, remove 5, create, delete} x package {middleware, resbadger} x type {model, collection} x value type {untyped, struct} x default {none, set} x index set {none, one}; after every event the get response and Value() are compared with the fold, listener old values / deleted data with the previous stored value, and at the end the database is closed, reopened and compared again; distinct = distinct (configuration, sequence, outcome vector)"}
+		rule: "every sequence of <=4 (5 thorough) events over {change a=1, change a=2 b=x, change delete a, (untyped models: change c=null, change delete c,) add v@0, add v@1, add v@5, remove 0, remove 5, create, delete} x package {middleware, resbadger} x type {model, collection} x value type {untyped, struct} x default {none, set} x index set {none, one}; after every event the get response and Value() are compared with the fold, listener old values / deleted data with the previous stored value, and at the end the database is closed, reopened and compared again; distinct = distinct (configuration, sequence, outcome vector)"}
 }
 
 type c20Cfg struct {
@@ -87,7 +87,7 @@ func c20Fold(cfg c20Cfg, s c20State, ev string) (n c20State, applied bool, old s
 		return o
 	}
 	switch ev {
-	case "chA1", "chA2Bx", "chDelA":
+	case "chA1", "chA2Bx", "chDelA", "chCnull", "chDelC":
 		if !cur.exists {
 			return s, false, "", false
 		}
@@ -114,6 +114,13 @@ func c20Fold(cfg c20Cfg, s c20State, ev string) (n c20State, applied bool, old s
 			if ov, ok := m["a"]; ok {
 				rev["a"] = ov
 				delete(m, "a")
+			}
+		case "chCnull":
+			set("c", nil)
+		case "chDelC":
+			if ov, ok := m["c"]; ok {
+				rev["c"] = ov
+				delete(m, "c")
 			}
 		}
 		if len(rev) == 0 {
@@ -170,6 +177,10 @@ type c20Obs struct {
 
 func c20Events(cfg c20Cfg) []string {
 	if cfg.Type == "model" {
+		if !cfg.Typed {
+			// untyped models may hold a property whose value is JSON null
+			return append(append([]string{}, c20ModelEvents...), "chCnull", "chDelC")
+		}
 		return c20ModelEvents
 	}
 	return c20CollEvents
@@ -361,6 +372,10 @@ func c20Run(db **badger.DB, reopen func(), cfg c20Cfg, seq []string, rname strin
 					r.ChangeEvent(map[string]interface{}{"a": 2.0, "b": "x"})
 				case "chDelA":
 					r.ChangeEvent(map[string]interface{}{"a": res.DeleteAction})
+				case "chCnull":
+					r.ChangeEvent(map[string]interface{}{"c": nil})
+				case "chDelC":
+					r.ChangeEvent(map[string]interface{}{"c": res.DeleteAction})
 				case "add0":
 					r.AddEvent("v", 0)
 				case "add1":
@@ -401,7 +416,7 @@ func c20Run(db **badger.DB, reopen func(), cfg c20Cfg, seq []string, rname strin
 				}
 				sig = append(sig, "rejected")
 			} else {
-				name := map[string]string{"chA1": "change", "chA2Bx": "change", "chDelA": "change", "add0": "add", "add1": "add", "add5": "add", "rem0": "remove", "rem5": "remove", "create": "create", "delete": "delete"}[ev]
+				name := map[string]string{"chA1": "change", "chA2Bx": "change", "chDelA": "change", "chCnull": "change", "chDelC": "change", "add0": "add", "add1": "add", "add5": "add", "rem0": "remove", "rem5": "remove", "create": "create", "delete": "delete"}[ev]
 				wantL := "listener " + name
 				if name == "change" {
 					wantL += " old=" + norm(old)
